@@ -16,7 +16,7 @@ PROPERTY = "C10"
 RULE = ("three families. vmdk: gen_vmdk.gen_disk — 1..8 extents of mixed kinds (flat, VMFS, hosted sparse, VMFS sparse, "
         "SE-sparse, stream-optimised) and sizes, descriptor text variants (access modes, quoted names with spaces / unicode / "
         "quote-like characters, optional fields, CRLF, ddb entries) or explicit handle lists; requests straddling every extent "
-        "boundary and the tail. hdd: Parallels directories with 1..4 storages (plain / expanding images, XML order shuffled). "
+        "boundary and the tail. hdd: Parallels directories with 1..4 storages (plain / expanding images, XML order shuffled, mostly not ascending by Start). "
         "line: extent lines rendered from abstract extents plus adversarial lines, parsed by the live regex and by the Lean "
         "regex model translated from it. Non-trivial = ≥ 2 extents/storages and a request crossing a boundary (disk families), "
         "or a line with ≥ 5 fields / special characters (line family); distinct recipe hash.")
@@ -137,7 +137,7 @@ def generate(seed, tier):
         cases.append({"id": f"v{i}", "fam": "vmdk", "recipe": r, "align": rng.choice([8192] * 5 + [512, 4096, 65536]), "queries": qs})
     nh = 50 if tier == "quick" else 700
     for i in range(nh):
-        r = gen_hdd.gen_recipe(rng, tier, max_depth=1)
+        r = gen_hdd.gen_recipe(rng, tier, max_depth=1, disorder=0.6)
         t = gen_hdd.Truth(r)
         cases.append({"id": f"h{i}", "fam": "hdd", "recipe": r, "align": rng.choice([8192] * 5 + [512, 4096, 65536]),
                       "queries": [["s", 0, 2]] + gen_hdd.gen_queries(rng, t, 8 if tier == "quick" else 14)})
